@@ -19,8 +19,10 @@ EXTENDS RVProject, RVLinks
 (* w = [p |-> RVProject state, t |-> [module id -> its four link lists], vol |-> [module id -> value], strict |-> BOOLEAN] *)
 NoLinks == [inl |-> <<>>, ins |-> <<>>, outl |-> <<>>, outs |-> <<>>]
 (* module id nm is a MultiCtl; map[i] is the controller number named by its i-th mapping (0 = none, 1 = the volume)      *)
+(* opt[m]: two independent boolean options of module m (a MetaModule's `arpeggiator`, off by default, and `event_output`, on by   *)
+(* default): only SysSetOpt changes them - they survive attach, connect, save+load, a failed load elsewhere, and a clone has them *)
 InitW(nm, np) == [p |-> InitState(nm, np), t |-> [m \in 1..nm |-> NoLinks], vol |-> [m \in 1..nm |-> 256], strict |-> TRUE,
-                  map |-> [i \in 1..4 |-> 0]]
+                  map |-> [i \in 1..4 |-> 0], opt |-> [m \in 1..nm |-> <<0, 1>>]]
 ResW(o, ws, r) == [outcome |-> o, posts |-> ws, ret |-> r]
 Lift(w, r) == ResW(r.outcome, {[w EXCEPT !.p = q] : q \in r.posts}, r.ret)
 
@@ -64,7 +66,9 @@ SysBulk(w, q, n, fail, sparse) ==
   ELSE IF sparse THEN ResW("ok", {w}, 0)
   ELSE ResW("ok", {[w EXCEPT !.p.nmod[q] = n]}, 0)
 (* Module.clone(): a free copy (through serialization) of module src, bound to the free id dst: same controller value, no links *)
-SysClone(w, src, dst) == ResW("ok", {[w EXCEPT !.vol[dst] = w.vol[src], !.t[dst] = NoLinks]}, 0)
+SysClone(w, src, dst) == ResW("ok", {[w EXCEPT !.vol[dst] = w.vol[src], !.t[dst] = NoLinks, !.opt[dst] = w.opt[src]]}, 0)
+(* option assignment (RVOptions for two independent one-bit options): the option reads back as assigned, the other one stays *)
+SysSetOpt(w, m, k, v) == ResW("ok", {[w EXCEPT !.opt[m][k] = v]}, 0)
 
 (* ---- MultiCtl (RVMultiCtl composed with the link tables): mapping i belongs to the MultiCtl's i-th OUT slot.          *)
 SysSetMap(w, i, c) == ResW("ok", {[w EXCEPT !.map[i] = c]}, 0)
